@@ -63,7 +63,12 @@ THEOREMS = {
             "init_relabel", "stepOp_relabel", "run_relabel", "expDict_relabel", "argmaxFirst_relabel", "init_run_relabel",
             "armDistance_relabel", "distanceThreshold_relabel", "coldToWarm_relabel", "warmStart_relabel",
             "predictExp_relabel_greedy", "predictExp_relabel_thompson", "predictExp_relabel_linear", "predictExp_relabel",
-            "predict_relabel"],
+            "predict_relabel",
+            "npBinarize_relabel", "clustersFitOp_relabel", "treeFitArms_relabel", "impFit_relabel", "impPartialFit_relabel",
+            "impAddArm_relabel", "impRemoveArm_relabel", "selectIdx_relabel", "nhoodRow_relabel", "treeLeafExp_relabel",
+            "treeRow_relabel", "predictChunk_relabel", "impPredict_relabel", "validateTrain_relabel", "trainShapeErr_relabel",
+            "train_relabel", "query_relabel", "step_relabel", "runHist_relabel", "runOuts_relabel", "init_relabel_bandit",
+            "relabel_end_to_end"],
 }
 
 IMPORTS = {
@@ -86,7 +91,8 @@ IMPORTS = {
     "C17": ["MabModel.Props.C17"],
     "C18": ["MabModel.Props.C18"],
     "C19": ["MabModel.Props.C19"],
-    "C20": ["MabModel.Props.C20", "MabModel.Props.C20b", "MabModel.Props.C20c", "MabModel.Props.C20d"],
+    "C20": ["MabModel.Props.C20", "MabModel.Props.C20b", "MabModel.Props.C20c", "MabModel.Props.C20d",
+            "MabModel.Props.C20e", "MabModel.Props.C20f", "MabModel.Props.C20g"],
 }
 
 
